@@ -274,10 +274,17 @@ void cs_std_S(const cs_scenario *sc, const cs_std *st, int findex, cs_c *S)
 double cs_vector_wiggle;
 int cs_vector_on_cal;
 
+int cs_param_fillers;
+
 int cs_make_params(vnacal_t *vcp, cs_scenario *sc)
 {
     const cs_vna *v = &sc->vna;
     double fmin = v->f[0], fmax = v->f[v->nf - 1];
+
+    /* unrelated parameters first: the scenario's handles start higher */
+    for (int i = 0; i < cs_param_fillers; ++i)
+	if (vnacal_make_scalar_parameter(vcp, 0.04 * (i + 1) + 0.2 * I) < 0)
+	    return -1;
 
     for (int k = 0; k < sc->nparam; ++k) {
 	cs_param *p = &sc->param[k];
